@@ -95,6 +95,14 @@ Result(ok) == /\ lock = "none" /\ kind \in DML \cup {"create"}
               /\ kind' = "none" /\ stamped' = {} /\ logged' = {}
               /\ UNCHANGED <<lock, inRec, stamp, lastStamp, maxLogged, disk, hdrNext, hdrNx, hdrDone>>
 
+\* the statement was abandoned half-way because the page cache was full of dirty pages (ErrLRUCacheFull): the
+\* precondition of C16 is not met; nothing of it was logged, and what it stamped dies with the process (the
+\* harness abandons the process right after)
+Aborted == /\ lock = "none" /\ kind \in DML \cup {"create"}
+           /\ logged = {}
+           /\ kind' = "none" /\ stamped' = {}
+           /\ UNCHANGED <<lock, inRec, stamp, logged, lastStamp, maxLogged, unlogged, disk, hdrNext, hdrNx, hdrDone>>
+
 \* flushPages takes the exclusive lock: never while a statement holds the shared one (C13)
 ExclusiveLock == /\ lock = "none"
                  /\ lock' = "X" /\ hdrDone' = FALSE
